@@ -171,7 +171,8 @@ func (ex *Exec) step(st *State, fr *Frame, in ssa.Instruction) (forks []*State, 
 			if isByte(at.Elem()) {
 				fr.regs[x] = ex.elemAddr(base, idx, at.Elem())
 			} else {
-				fr.regs[x] = ex.arrElemAddr(base, idx, t.Elem(), at.Elem())
+				// element i of the array p points to is element i of the slice p[:]
+				fr.regs[x] = ex.elemAddr(base, idx, at.Elem())
 			}
 		default:
 			panic("indexaddr on " + x.X.Type().String())
@@ -659,6 +660,11 @@ func (ex *Exec) makeInterface(st *State, v Term, from types.Type) Term {
 	unbox := w.D.Fun(fmt.Sprintf("unbox!%d!%s", id, sortTag(v.Sort)), []Sort{SRef}, v.Sort)
 	r := App(SRef, box, v)
 	st.assume(And(Not(Eq(r, TNil)), Eq(App(SInt, "dyntype", r), IntLit(int64(id))), Eq(App(v.Sort, unbox, r), v)))
+	if sf, ok := w.CS.Specs["ifaceint"]; ok && v.Sort == SInt {
+		// the integer carried by an interface value (used by the contract of fmt.Sprintf("%d", n))
+		w.declareSpec(sf)
+		st.assume(Eq(App(SInt, "ifaceint", r), v))
+	}
 	return r
 }
 
